@@ -1,9 +1,9 @@
-use std::{rc::Rc, vec};
+use std::{collections::HashSet, rc::Rc, vec};
 
 use crate::{
     cfg::{Cfg, CfgNode, Function, RegisterSet},
     parser::{
-        InstructionProperties, JumpLinkType, LabelString, ParserNode, Register, Token, TokenType,
+        HasIdentity, InstructionProperties, JumpLinkType, LabelString, ParserNode, Register, Token, TokenType,
         With,
     },
     passes::{CfgError, DiagnosticLocation, GenerationPass},
@@ -27,8 +27,16 @@ impl FunctionMarkupPass {
         let mut returns = None; // Return instructions in this function
         let mut instructions = vec![];
 
-        // Traverse the CFG for all nodes reachable from the entry point
-        for node in cfg.iter_nexts(Rc::clone(entry)) {
+        // Collect all nodes reachable from the entry point first, then visit
+        // them in program order. The reachable *set* does not depend on the
+        // traversal order, but the choice of the exit (the first return that
+        // is met) and the rewriting of the other returns do, and the
+        // traversal follows hash-set iteration order.
+        let reachable = cfg
+            .iter_nexts(Rc::clone(entry))
+            .map(|n| n.id())
+            .collect::<HashSet<_>>();
+        for node in cfg.iter().filter(|n| reachable.contains(&n.id())) {
             // Mark the node as being a part of the given function
             instructions.push(Rc::clone(&node));
             node.insert_function(Rc::clone(func));
